@@ -41,6 +41,26 @@ func main() {
 	case "roles":
 		mustLoad(os.Args[2])
 		debugTypeRoles()
+	case "seams":
+		p := mustLoad(os.Args[2])
+		p.buildSeams()
+		for _, k := range sortedKeys(p.seamField) {
+			s := p.seamField[k]
+			switch {
+			case s.bad:
+			case s.fn != nil:
+				fmt.Printf("field %s = func %s (%d stores)\n", k, qualName(s.fn), s.n)
+			case s.via != "":
+				fmt.Printf("field %s = %s + %d steps, type %v (%d stores)\n", k, s.via, len(s.path), s.typ, s.n)
+			case s.typ != nil:
+				fmt.Printf("field %s : %v (%d stores)\n", k, s.typ, s.n)
+			}
+		}
+		for _, k := range sortedKeys(p.seamGlobal) {
+			if s := p.seamGlobal[k]; !s.bad && s.fn != nil {
+				fmt.Printf("var %s = func %s\n", k, qualName(s.fn))
+			}
+		}
 	case "funcs":
 		p := mustLoad("/repo")
 		for _, f := range p.Funcs {
